@@ -1027,6 +1027,14 @@ func (h *harness) hsTransition(o hsObs, hist map[string]any) {
 	want := strings.Join(o.hsPost, " ")
 	h.res.Compared(1)
 	h.res.Hit("hs-transition:" + o.hsRet)
+	if o.hsRet == "failed" {
+		// a database the migration refuses (a deprecated field missing): the model refuses it too
+		h.bt.ask("hs.set " + strings.Join(o.hsPre, " "))
+		if f := strings.SplitN(h.bt.ask("hs.migrate P"), " ", 2); f[0] == "failed" {
+			h.res.Hit("hs-refusal-agrees-with-model")
+			return
+		}
+	}
 	var last string
 	for _, tok := range toks {
 		h.bt.ask("hs.set " + strings.Join(o.hsPre, " "))
